@@ -129,4 +129,48 @@ example : (toM exS).det.natAbs = 144 ∧ ∃ Linv : IMat 3 3, (snf exS).l.mul Li
   rw [Matrix.det_fin_three]
   decide
 
+/-- det R = ±1 for the column transformation of `HNF::new`. -/
+theorem hnf_det_r (A : IMat m n) : (toM (hnf A).r).det = 1 ∨ (toM (hnf A).r).det = -1 :=
+  Int.isUnit_iff.mp (hnf_preserves colClosed_unimod A (unimod_one n))
+
+/-- det L = ±1 for `SNF::new`. -/
+theorem snf_det_l (A : IMat m n) : (toM (snf A).l).det = 1 ∨ (toM (snf A).l).det = -1 :=
+  Int.isUnit_iff.mp (snf_unimod_l A)
+
+/-- det R = ±1 for `SNF::new`. -/
+theorem snf_det_r (A : IMat m n) : (toM (snf A).r).det = 1 ∨ (toM (snf A).r).det = -1 :=
+  Int.isUnit_iff.mp (snf_unimod_r A)
+
+/-- For a square matrix the determinant of H is the product of its diagonal. -/
+theorem hnf_det_diag (A : IMat n n) :
+    (toM (hnf A).h).det = ∏ i : Fin n, (hnf A).h.get i i := by
+  have : (toM (hnf A).h).BlockTriangular (⇑OrderDual.toDual) := by
+    intro i j hij
+    exact hnf_lower A i j (by simpa using hij)
+  rw [Matrix.det_of_isLowerTriangular _ this]
+  rfl
+
+/-- Index of the sublattice: for a square matrix the product of the diagonal of H is `|det A|`
+(all sizes: the index in ℤⁿ of the lattice spanned by the columns of `A`; implied on every
+implementation output by the oracle clauses H = A·R, R unimodular, H lower triangular with
+non-negative diagonal, which `checks/c15.py` evaluates).  No hypothesis on `det A`: for a singular matrix both
+sides vanish. -/
+theorem hnf_index (A : IMat n n) :
+    (∏ i : Fin n, (hnf A).h.get i i) = ((toM A).det).natAbs := by
+  have hnn : ∀ i : Fin n, 0 ≤ (hnf A).h.get i i := fun i => hnf_diag_nonneg A i i.isLt
+  have h1 : (∏ i : Fin n, (hnf A).h.get i i) = ((∏ i : Fin n, (hnf A).h.get i i).natAbs : ℤ) :=
+    (Int.natAbs_of_nonneg (Finset.prod_nonneg fun i _ => hnn i)).symm
+  rw [h1, ← hnf_det_diag, hnf_decomp, toM_mul, Matrix.det_mul, Int.natAbs_mul]
+  rcases hnf_det_r A with h | h <;> simp [h]
+
+/-- Non-vacuity of `hnf_index`: the Rust unit-test matrix has index 2 (H = diag-product 1·2·1). -/
+example : ((toM exH).det).natAbs = 2 ∧ (∏ i : Fin 3, (hnf exH).h.get i i) = 2 := by
+  have h : ((toM exH).det).natAbs = 2 := by rw [Matrix.det_fin_three]; decide
+  exact ⟨h, by rw [hnf_index, h]; rfl⟩
+
+/-- For a square matrix `|det D| = |det M|`: the Smith form keeps the index of the sublattice. -/
+theorem snf_det_abs (M : IMat n n) : (toM (snf M).d).det.natAbs = (toM M).det.natAbs := by
+  rw [snf_decomp, toM_mul, toM_mul, Matrix.det_mul, Matrix.det_mul, Int.natAbs_mul, Int.natAbs_mul]
+  rcases snf_det_l M with h | h <;> rcases snf_det_r M with h' | h' <;> simp [h, h']
+
 end Moyo.C15
